@@ -42,8 +42,8 @@ PROPS["C14"] = dict(
     assumptions=["the pool model is a superset of what the runtime's sync.Pool does and a subset of what its documentation allows",
                  "values are compared with the same code on a pristine decoder (self-differential), so decode defects that do not depend on reuse are out of scope (C13, not claimed); panics are judged on every call"],
     tests=[dict(name="TestC14Hist", pkg="c14", race=False, mem_gb=8,
-                quick=dict(workers=16, checks=6000, steps=40, watchdog_s=900),
-                thorough=dict(workers=16, checks=400000, steps=50, watchdog_s=5400))],
+                quick=dict(workers=16, checks=25000, steps=40, watchdog_s=900),
+                thorough=dict(workers=16, checks=600000, steps=50, watchdog_s=5400))],
 )
 
 PROPS["C15"] = dict(
@@ -67,9 +67,9 @@ PROPS["C15"] = dict(
     assumptions=["a race between two accesses is found if both are executed in some explored run without a happens-before path created by the library itself",
                  "interleavings are explored at the granularity of the yield points (API calls, pool operations)"],
     tests=[dict(name="TestC15Coop", pkg="c15", race=True, params=dict(max_clients=6),
-                quick=dict(workers=16, checks=400, steps=30, watchdog_s=900),
-                thorough=dict(workers=16, checks=40000, steps=30, watchdog_s=7200, max_clients=12)),
+                quick=dict(workers=16, checks=1500, steps=30, watchdog_s=900),
+                thorough=dict(workers=16, checks=60000, steps=30, watchdog_s=7200, max_clients=12)),
            dict(name="TestC15Coop", pkg="c15", race=False, mem_gb=8, params=dict(max_clients=6),
-                quick=dict(workers=8, checks=3000, steps=30, watchdog_s=900),
-                thorough=dict(workers=16, checks=300000, steps=30, watchdog_s=7200, max_clients=64))],
+                quick=dict(workers=16, checks=6000, steps=30, watchdog_s=900),
+                thorough=dict(workers=16, checks=400000, steps=30, watchdog_s=7200, max_clients=64))],
 )
